@@ -3,7 +3,7 @@ from specs.common import run, ASSUME_COMMON
 SPEC = {
     "runs": [run("e2-history", "e2_history", "tsan", 300, 10000, sq=6, st=16, params={"prop": "C03"},
                  fallback_flavour="tsan-plain", timeout={"quick": 1500, "thorough": 10800})],
-    "floors": {"quick": {'batches_before-first-flush': 500, 'batches_during-flush': 100, 'batches_after-flush': 500, 'batches_drain-after-flush': 8, 'batches_drain-no-flush': 8, 'simple_calls_while_another_caller_inside': 1000, 'periodic_exports': 100, 'histories_simple-span': 10, 'histories_simple-log': 10}, "thorough": {'batches_before-first-flush': 50000, 'batches_during-flush': 10000, 'batches_after-flush': 50000, 'batches_drain-after-flush': 500, 'batches_drain-no-flush': 500, 'simple_calls_while_another_caller_inside': 100000, 'periodic_exports': 10000}},
+    "floors": {"quick": {'batches_before-first-flush': 500, 'batches_during-flush': 100, 'batches_after-flush': 500, 'batches_drain-after-flush': 8, 'batches_drain-no-flush': 8, 'simple_calls_while_another_caller_inside': 1000, 'periodic_exports': 100, 'histories_periodic_export_outlives_timeout': 4, 'histories_simple-span': 10, 'histories_simple-log': 10}, "thorough": {'batches_before-first-flush': 50000, 'batches_during-flush': 10000, 'batches_after-flush': 50000, 'batches_drain-after-flush': 500, 'batches_drain-no-flush': 500, 'simple_calls_while_another_caller_inside': 100000, 'periodic_exports': 10000}},
     "engine": "E2 history",
     "technique": "offline history checker over call/return and exporter events recorded from real-thread executions under ThreadSanitizer with a seeded perturbation shim (yields, sleeps, spurious weak-CAS failures)",
     "level_text": 'exploration: the recording exporter itself is the monitor - an in-flight counter checked at every Export entry (before the scripted delay, so overlap windows are wide) and the size of every batch tagged with the processor phase (before-first-flush, during-flush, after-flush, drain). Driven by the E2 real-thread history engine under TSan + perturbation shim over batch span/log processors, providers, simple span/log processors hammered from 2..8 threads, and the periodic reader raced with ForceFlush.',
